@@ -46,6 +46,7 @@ def run(ctx):
     check_range(ctx, facts)
     check_padding(ctx, facts)
     check_accumulator(ctx, facts)
+    check_accumulator_window(ctx, facts)
     check_dzkp_consts(ctx, facts)
 
 
@@ -260,3 +261,78 @@ def check_dzkp_consts(ctx, facts):
     ctx.ob("CONST-dzkp", "INVERSE_OF_TWO", (2 * i2) % P == 1 and i2 < P, f"2*{i2} mod P = {(2*i2)%P}")
     ctx.ob("CONST-dzkp", "MINUS_ONE_HALF", (mh + i2) % P == 0 and mh < P, f"{mh}+{i2} mod P = {(mh+i2)%P}")
     ctx.ob("CONST-dzkp", "MINUS_TWO", (m2 + 2) % P == 0 and m2 < P, f"{m2}+2 mod P = {(m2+2)%P}")
+
+
+# ---------------------------------------------------------------------------------------------
+def check_accumulator_window(ctx, facts):
+    """The constant bound N*(P-1)^2 + (P-1) < 2^128 (CONST-accumulator) only helps if at most N products are
+    added between two reductions.  Structural premises, checked on every deferred-reduction multiply_accumulate:
+    every product is added BEFORE the count is incremented, the count is incremented exactly once on every path,
+    the reduction test is `count == REDUCE_INTERVAL` evaluated after the increment, and on its true edge the
+    value is reduced and the count reset to 0; take() reduces."""
+    ctx.rule("WINDOW: in each Accumulator::multiply_accumulate: products (value += a*b) dominate the single `count += 1`, which dominates the test `count == REDUCE_INTERVAL`; on its true edge value is reduced (truncate_from) and count := 0; so a window never holds more than REDUCE_INTERVAL products; take() returns truncate_from(value)")
+    import vlib.flow as flow
+    n = 0
+    for path, b in sorted(facts.bodies.items()):
+        if not re.match(r"^<ff::accumulator::Accumulator<.*> as ff::accumulator::MultiplyAccumulator(Array)?<.*>>::multiply_accumulate$", path):
+            continue
+        n += 1
+        ctx.count(bodies=1)
+        dom = b.dominators()
+        tag = "array" if "MultiplyAccumulatorArray" in path else "scalar"
+        prods = []
+        for bb, t in b.calls():
+            if (F.callee(t)[0] or "").endswith("AddAssign::add_assign") and "value" in flow.field_names_in(flow.expr_of(b, t["args"][0])):
+                e = flow.expr_of(b, t["args"][1])
+                if e[0] == "call" and e[1].endswith("Mul::mul"):
+                    prods.append(bb)
+        incs, resets, reduces = [], [], []
+        for bb, idx, st in b.iter_assigns():
+            last = st["p"][-1] if len(st["p"]) > 1 else None
+            if isinstance(last, list) and last[0] == "f" and len(last) > 2 and last[2] == "count":
+                e = flow.expr_of(b, st["r"]["o"]) if st["r"]["k"] == "use" else ("?",)
+                if e[0] == "bin" and e[1] == "Add" and ("const", 1) in (e[2], e[3]) and "count" in flow.field_names_in(e):
+                    incs.append(bb)
+                elif e == ("const", 0):
+                    resets.append(bb)
+                else:
+                    ctx.ob("WINDOW", f"{tag}:count-write", False, f"count := {str(e)[:100]} (neither +1 nor reset to 0)", site_of(b, bb, idx))
+            if isinstance(last, list) and last[0] == "f" and len(last) > 2 and last[2] == "value":
+                e = str(flow.expr_of(b, st["r"]["o"])) if st["r"]["k"] == "use" else ""
+                if "truncate_from" in e or "from_fn" in e:
+                    reduces.append(bb)
+        test = None
+        for bb in sorted(b.live_blocks()):
+            t = b.term(bb)
+            if t["k"] == "switch":
+                e = flow.expr_of(b, t["o"])
+                if e[0] == "bin" and "count" in flow.field_names_in(e) and "REDUCE_INTERVAL" in str(e):
+                    test = (bb, e, flow.switch_edges(b, bb))
+        ok1 = len(incs) == 1 and bool(prods) and all(flow.dominates(dom, pb, incs[0]) or _loop_before(b, pb, incs[0]) for pb in prods)
+        ctx.ob("WINDOW", f"{tag}:product-before-increment", ok1, "each call adds its product and then counts it" if ok1 else "a product is added to the accumulator after / independently of the count increment: a window can hold more than REDUCE_INTERVAL products and overflow the accumulator", site_of(b, prods[0]) if prods else site_of(b))
+        rets = [x for x in b.live_blocks() if b.term(x)["k"] == "ret"]
+        ok2 = len(incs) == 1 and all(flow.dominates(dom, incs[0], r) for r in rets)
+        ctx.ob("WINDOW", f"{tag}:increment-once-on-every-path", ok2, "count += 1 exactly once per call" if ok2 else f"count is incremented {len(incs)} times / not on every path", site_of(b, incs[0]) if incs else site_of(b))
+        ok3 = test is not None and test[1][1] == "Eq" and bool(incs) and flow.dominates(dom, incs[0], test[0])
+        ctx.ob("WINDOW", f"{tag}:test-eq-after-increment", ok3, "reduction is triggered when count == REDUCE_INTERVAL, tested after the increment" if ok3 else (f"reduction test is `{test[1][1]}` / not after the increment" if test else "no comparison of count with REDUCE_INTERVAL"), site_of(b, test[0]) if test else site_of(b))
+        ok4 = test is not None and test[2] is not None and bool(resets) and bool(reduces) and all(flow.dominates(dom, test[2][1], x) for x in resets + reduces) and all(x not in b.reachable(test[2][0]) or flow.dominates(dom, test[2][1], x) for x in resets + reduces)
+        ctx.ob("WINDOW", f"{tag}:reduce-and-reset-on-true-edge", ok4, "value is reduced and count reset to 0 exactly when the interval is full" if ok4 else "the reduction / reset is not tied to the `count == REDUCE_INTERVAL` edge", site_of(b, test[0]) if test else site_of(b))
+        tk = facts.bodies.get(path.replace("::multiply_accumulate", "::take"))
+        if tk is None:
+            ctx.missing("WINDOW", path.replace("::multiply_accumulate", "::take"))
+        else:
+            txt = str(flow.expr_of(tk, {"cp": [0]}))
+            clos = [c for c in facts.tree(tk.root) if c.kind == "Closure"]
+            okt = "truncate_from" in txt or any(flow.find_calls(c, re.compile(r"truncate_from$")) for c in clos)
+            ctx.ob("WINDOW", f"{tag}:take-reduces", okt, "take() reduces the accumulated value", site_of(tk))
+    ctx.floor("WINDOW", "deferred-reduction multiply_accumulate bodies", n, 2)
+
+
+def _loop_before(b, pb, inc):
+    """product block inside a loop whose only exit leads to the increment: every path from entry to `inc`
+    passes the loop header, and `inc` is not reachable from entry while avoiding the loop (the per-element loop
+    runs to completion before counting)."""
+    if inc not in b.reachable(pb):
+        return False
+    # the product must not be reachable from the increment (i.e. it is not after it)
+    return pb not in b.reachable(inc)
